@@ -287,6 +287,8 @@ class H2Server(TimerMixin, Peer):
         ev["done"] = True
         w = self.w
         do = ev["do"]
+        if do != "ping" and do != "settings":
+            w.stats["hostile:h2_" + do] += 1
         try:
             if do == "settings":
                 self._send_settings(now, ev["settings"])
@@ -564,6 +566,7 @@ class H2Server(TimerMixin, Peer):
     def _truncate(self, now, sid, plan):
         kind = plan.get("trunc_kind", "eof")
         self.w.probes["h2_truncated"] += 1
+        self.w.stats["hostile:trunc"] += 1
         if kind == "rst":
             self.c.reset_stream(sid, error_code=2)
             self.pending.pop(sid, None)
